@@ -46,11 +46,11 @@ func fracHalfTimes(v *big.Int, sign int, j uint) *big.Int {
 
 // GLVScalar draws a scalar in [0,n) steered at the endomorphism split.
 func GLVScalar(t *rapid.T, label string) (*big.Int, string) {
-	kind := rapid.SampledFrom([]string{GLVSpecial, GLVHalves, GLVHalves, GLVQuotient, GLVQuotient, GLVNibble, GLVGeneral, GLVLambdaPow}).Draw(t, label+"_kind")
+	kind := Sampled([]string{GLVSpecial, GLVHalves, GLVHalves, GLVQuotient, GLVQuotient, GLVNibble, GLVGeneral, GLVLambdaPow}).Draw(t, label+"_kind")
 	n := ref.N
 	switch kind {
 	case GLVSpecial:
-		return new(big.Int).Set(rapid.SampledFrom(glvSpecials).Draw(t, label+"_sp")), kind
+		return new(big.Int).Set(Sampled(glvSpecials).Draw(t, label+"_sp")), kind
 	case GLVLambdaPow:
 		e := rapid.IntRange(0, 2).Draw(t, label+"_e")
 		v := ref.ExpM(ref.Lambda, bi(int64(e)), n)
@@ -77,7 +77,7 @@ func GLVScalar(t *rapid.T, label string) (*big.Int, string) {
 	case GLVQuotient:
 		// s = floor((4c+3) * 2^384 / (4g)), c = m*2^64 - 1: k*g/2^384 sits at c + 3/4, i.e. low quotient limb all-ones
 		// and the rounding bit set, so the rounded quotient carries across the 64-bit limb.
-		g := rapid.SampledFrom([]*big.Int{ref.GLVg1, ref.GLVg2}).Draw(t, label+"_g")
+		g := Sampled([]*big.Int{ref.GLVg1, ref.GLVg2}).Draw(t, label+"_g")
 		maxQ := new(big.Int).Rsh(new(big.Int).Mul(n, g), 384) // largest reachable quotient
 		mMax := new(big.Int).Rsh(maxQ, 64)
 		m := new(big.Int).Mod(Uniform256(t, label+"_m"), new(big.Int).Add(mMax, one))
